@@ -269,11 +269,11 @@ type wireCase struct {
 	val  M
 	text []byte                  // json.Marshal(v)
 	ptxt []byte                  // json.Marshal(&v)
-	back func([]byte) (M, error) // Unmarshal text into a fresh value, converted to Val
+	back func(...[]byte) (M, error) // Unmarshal the documents one after the other into ONE value that starts fresh, converted to Val
 }
 
 func genWire(r *RNG) wireCase {
-	mk := func(ty string, v any, pv any, val M, back func([]byte) (M, error)) wireCase {
+	mk := func(ty string, v any, pv any, val M, back func(...[]byte) (M, error)) wireCase {
 		t, err := json.Marshal(v)
 		if err != nil {
 			panic(err)
@@ -287,16 +287,22 @@ func genWire(r *RNG) wireCase {
 	switch r.Intn(8) {
 	case 0:
 		v := webauthn.PublicKeyCredentialUserEntity{ID: genBytesW(r), DisplayName: genStrW(r), Name: genStrW(r)}
-		return mk("userEntity", v, &v, vUser(v), func(b []byte) (M, error) {
+		return mk("userEntity", v, &v, vUser(v), func(docs ...[]byte) (M, error) {
 			var x webauthn.PublicKeyCredentialUserEntity
-			err := json.Unmarshal(b, &x)
+			var err error
+			for _, b := range docs {
+				err = json.Unmarshal(b, &x)
+			}
 			return vUser(x), err
 		})
 	case 1:
 		v := genDescriptor(r)
-		return mk("descriptor", v, &v, vDescriptor(v), func(b []byte) (M, error) {
+		return mk("descriptor", v, &v, vDescriptor(v), func(docs ...[]byte) (M, error) {
 			var x webauthn.PublicKeyCredentialDescriptor
-			err := json.Unmarshal(b, &x)
+			var err error
+			for _, b := range docs {
+				err = json.Unmarshal(b, &x)
+			}
 			return vDescriptor(x), err
 		})
 	case 2:
@@ -313,48 +319,66 @@ func genWire(r *RNG) wireCase {
 			v.AuthenticatorSelection = &webauthn.AuthenticatorSelectionCriteria{AuthenticatorAttachment: webauthn.AuthenticatorAttachment(genStrW(r)),
 				ResidentKey: webauthn.ResidentKeyType(genStrW(r)), RequireResidentKey: r.Bool(), UserVerification: webauthn.UserVerificationRequirement(genStrW(r))}
 		}
-		return mk("creationOptions", v, &v, vCreationOptions(v), func(b []byte) (M, error) {
+		return mk("creationOptions", v, &v, vCreationOptions(v), func(docs ...[]byte) (M, error) {
 			var x webauthn.PublicKeyCredentialCreationOptions
-			err := json.Unmarshal(b, &x)
+			var err error
+			for _, b := range docs {
+				err = json.Unmarshal(b, &x)
+			}
 			return vCreationOptions(x), err
 		})
 	case 3:
 		v := webauthn.PublicKeyCredentialRequestOptions{Challenge: genBytesW(r), Timeout: genTimeout(r), RPID: genStrW(r), AllowCredentials: genDescriptors(r),
 			UserVerification: webauthn.UserVerificationRequirement(genStrW(r)), Extensions: genExt(r)}
-		return mk("requestOptions", v, &v, vRequestOptions(v), func(b []byte) (M, error) {
+		return mk("requestOptions", v, &v, vRequestOptions(v), func(docs ...[]byte) (M, error) {
 			var x webauthn.PublicKeyCredentialRequestOptions
-			err := json.Unmarshal(b, &x)
+			var err error
+			for _, b := range docs {
+				err = json.Unmarshal(b, &x)
+			}
 			return vRequestOptions(x), err
 		})
 	case 4:
 		v := webauthn.PublicKeyCreationCredential{ID: genStrW(r), Type: webauthn.PublicKeyCredentialType(genStrW(r)), RawID: genBytesW(r),
 			Response: webauthn.AuthenticatorAttestationResponse{ClientDataJSON: genBytesW(r), AttestationObject: genBytesW(r)}, ClientExtensionResults: genExt(r)}
-		return mk("creationCredential", v, &v, vCreationCred(v), func(b []byte) (M, error) {
+		return mk("creationCredential", v, &v, vCreationCred(v), func(docs ...[]byte) (M, error) {
 			var x webauthn.PublicKeyCreationCredential
-			err := json.Unmarshal(b, &x)
+			var err error
+			for _, b := range docs {
+				err = json.Unmarshal(b, &x)
+			}
 			return vCreationCred(x), err
 		})
 	case 5:
 		v := webauthn.PublicKeyAssertionCredential{ID: genStrW(r), Type: webauthn.PublicKeyCredentialType(genStrW(r)), RawID: genBytesW(r),
 			Response:               webauthn.AuthenticatorAssertionResponse{ClientDataJSON: genBytesW(r), AuthenticatorData: genBytesW(r), Signature: genBytesW(r), UserHandle: genBytesW(r)},
 			ClientExtensionResults: genExt(r)}
-		return mk("assertionCredential", v, &v, vAssertionCred(v), func(b []byte) (M, error) {
+		return mk("assertionCredential", v, &v, vAssertionCred(v), func(docs ...[]byte) (M, error) {
 			var x webauthn.PublicKeyAssertionCredential
-			err := json.Unmarshal(b, &x)
+			var err error
+			for _, b := range docs {
+				err = json.Unmarshal(b, &x)
+			}
 			return vAssertionCred(x), err
 		})
 	case 6:
 		v := webauthn.AuthenticatorAttestationResponse{ClientDataJSON: genBytesW(r), AttestationObject: genBytesW(r)}
-		return mk("attestationResponse", v, &v, vAttResp(v), func(b []byte) (M, error) {
+		return mk("attestationResponse", v, &v, vAttResp(v), func(docs ...[]byte) (M, error) {
 			var x webauthn.AuthenticatorAttestationResponse
-			err := json.Unmarshal(b, &x)
+			var err error
+			for _, b := range docs {
+				err = json.Unmarshal(b, &x)
+			}
 			return vAttResp(x), err
 		})
 	default:
 		v := webauthn.AuthenticatorAssertionResponse{ClientDataJSON: genBytesW(r), AuthenticatorData: genBytesW(r), Signature: genBytesW(r), UserHandle: genBytesW(r)}
-		return mk("assertionResponse", v, &v, vAssResp(v), func(b []byte) (M, error) {
+		return mk("assertionResponse", v, &v, vAssResp(v), func(docs ...[]byte) (M, error) {
 			var x webauthn.AuthenticatorAssertionResponse
-			err := json.Unmarshal(b, &x)
+			var err error
+			for _, b := range docs {
+				err = json.Unmarshal(b, &x)
+			}
 			return vAssResp(x), err
 		})
 	}
@@ -472,6 +496,7 @@ func init() {
 	}
 	register("C14",
 		Stream{"wire.roundtrip", func(c *Ctx) {
+			prevText := map[string][]byte{}
 			n := c.N(2500, 150000)
 			for i := 0; i < n; i++ {
 				w := genWire(c.R)
@@ -497,6 +522,14 @@ func init() {
 					mo["val"] = um["val"]
 				}
 				c.Compare("wire.unmarshal", M{"op": "wire.unmarshal", "type": w.ty, "doc": implTree}, impl, mo, w.ty, true)
+				// 3b. a destination that held another value before: Unmarshal gives what it gives into a fresh value (members the document
+				// omits do not survive from the earlier content)
+				if berr == nil && prevText[w.ty] != nil {
+					reused, rerr := w.back(prevText[w.ty], w.text)
+					c.Compare("wire.unmarshalReused", M{"op": "wire.unmarshalReused", "type": w.ty, "first": string(prevText[w.ty]), "second": string(w.text)},
+						M{"ok": rerr == nil, "val": reused}, M{"ok": true, "val": back}, w.ty, true)
+				}
+				prevText[w.ty] = w.text
 				// 4. re-marshal of the unmarshalled value gives an equivalent document
 				if berr == nil {
 					var again []byte
